@@ -10,7 +10,7 @@ body`, where `body : List Prim` may contain `Prim.raise` at any position (an exc
 `c.code = []` says that the commanding thread has left the `with` statement (normally or with `c.exc`).
 Traces are newest first.
 -/
-import CfVerif.Proofs.C17Inv
+import CfVerif.Proofs.C17Period
 import CfVerif.Proofs.C17Motion
 import CfVerif.Proofs.C17HL
 namespace CfVerif.C17
@@ -223,6 +223,33 @@ theorem mc_unrepaired_counterexample_land :
       (fun c => (c.code, c.exc, c.thr.alive, c.trace.head?))
       = some ([], some .zeroDiv, true, some (33 / 5, Cmd.hover 0 0 0 0)) := by decide +kernel
 
+/-! ## MotionCommander: hover set-points are streamed at least every update period -/
+
+/-- **hover_stream_period.**  `GapOK p trace` says: every commander call that directly follows a hover set-point (the next
+hover set-point, or the final stop) comes at most `p` later; `gapHead p t trace` says: if the last call so far is a hover
+set-point, `t` is at most `p` after it.  For every body, every interleaving and every reachable configuration (not only
+final ones): the trace so far satisfies `GapOK period`, and while the set-point thread is alive the clock has not passed
+the thread's deadline, which is at most one period after the last hover set-point (and after the thread's start) - so
+time cannot advance more than one period beyond the last hover set-point without a new one being sent. -/
+theorem hover_stream_period (st : Static) (hfix : Fixed st) (hp : 0 ≤ st.period) (body : List Prim) (sch : List Nat) (c : Cfg)
+    (hrun : run (machine st) (initWith body) sch = some c) :
+    GapOK st.period c.trace ∧
+    (c.thr.alive = true → c.now ≤ c.thr.deadline ∧ gapHead st.period c.thr.deadline c.trace) := by
+  obtain ⟨_, pi⟩ := pinv_run st hfix hp body sch c hrun
+  exact ⟨pi.gaps, pi.dl⟩
+
+theorem hover_stream_period_current (sqrt : Q → Q) (pi dh : Q) (conn : Bool) (body : List Prim) (sch : List Nat) (c : Cfg)
+    (hrun : run (machine (Static.ofGen sqrt pi dh conn)) (initWith body) sch = some c) :
+    GapOK Gen.C17.UPDATE_PERIOD c.trace ∧
+    (c.thr.alive = true → c.now ≤ c.thr.deadline ∧ gapHead Gen.C17.UPDATE_PERIOD c.thr.deadline c.trace) :=
+  hover_stream_period _ (ofGen_fixed sqrt pi dh conn) (le_of_lt gen_period_pos) body sch c hrun
+
+/-- what the two predicates say on a concrete trace (newest first): 0.2 s after a hover set-point is fine, 0.3 s is not -/
+example : GapOK (1 / 5) [(12 / 5, Cmd.stop), (11 / 5, Cmd.hover 0 0 0 1), (2, Cmd.hover 0 0 0 1)] ∧
+    ¬ GapOK (1 / 5) [(23 / 10, Cmd.hover 0 0 0 1), (2, Cmd.hover 0 0 0 1)] := by
+  simp only [GapOK, gapHead]
+  refine ⟨⟨by decide +kernel, by decide +kernel, trivial, trivial⟩, fun h => absurd h.1 (by decide +kernel)⟩
+
 /-! ## MotionCommander: the height integrates the commanded vertical velocity -/
 
 /-- **height_integrates.**  Write `H c = curZ c.thr c.now` for the thread's height (`z_base + v_z (now - t_base)`) and
@@ -264,6 +291,25 @@ theorem primitive_displacement (st : Static) (dx dy dz v : Q) (hv : v ≠ 0)
     scaled_direction v dx _, scaled_direction v dy _, scaled_direction v dz _, ?_, ?_⟩
   · field_simp
   · intro h1 h2; exact ⟨div_pos h1 h2, div_pos h2 h1⟩
+
+/-- **sleep_is_exact.**  The duration a blocking primitive sleeps IS the time that elapses between its two set-points: in
+every reachable configuration (any program, any interleaving) in which the commanding thread is sleeping `d ≥ 0`, the
+clock has not passed `tMain + d` (`tMain` = the instant of its previous instruction, i.e. of the motion set-point's
+`queue.put`), and the sleep can only complete once `tMain + d ≤ now` - so it completes exactly at `tMain + d`. -/
+theorem sleep_is_exact (st : Static) (code : List Instr) (sch : List Nat) (c : Cfg) (d : Q) (rest : List Instr)
+    (hrun : run (machine st) (Cfg.start code) sch = some c) (hc : c.code = .sleep d :: rest) (hd : 0 ≤ d) :
+    c.now ≤ c.tMain + d ∧ (∀ c', stepMain st c = some c' → c'.now = c.tMain + d ∧ c'.code = rest) := by
+  have h1 := sleepOK_run st code sch c hrun d rest hc hd
+  refine ⟨h1, ?_⟩
+  intro c' h
+  simp only [stepMain, hc] at h
+  split at h
+  · rename_i hneg; exact absurd hd (not_le.mpr hneg)
+  · split at h
+    · rename_i hle
+      cases h
+      exact ⟨le_antisymm h1 hle, rfl⟩
+    · cases h
 
 /-- the directional primitives are `move_distance` along the documented axis, with the default velocity when omitted;
 with zero velocity or zero distance the primitive raises ZeroDivisionError before commanding anything -/
